@@ -1641,7 +1641,7 @@ Print Assumptions C14_mt_var_exact.
    5 terminals; node budget / terminal budget / garbage; for ALL capacities: success iff both suffice *)
 
 Theorem C14_mt_example_table : MtOK exh /\ node_count exh = 5 /\ term_count exh = 4.
-Proof. exact (conj exh_ok (conj (proj1 exh_counts) (proj1 (proj2 exh_counts)))). Qed.
+Proof. exact exh_state. Qed.
 Print Assumptions C14_mt_example_table.
 
 Theorem C14_mt_example_sweep : forallb (fun cap => forallb (fun tcap =>
